@@ -12,5 +12,14 @@ let handle line =
   | ["REASON"; s] -> string_of_bool_01 (reason_ok (ns_of_csv s))
   | ["METHOD"; s] -> string_of_bool_01 (method_ok (ns_of_csv s))
   | ["SAFE"; s] -> string_of_bool_01 (safe_header (ns_of_csv s))
+  | "WRUN" :: ops ->
+    let op_of t = match String.split_on_char ':' t with
+      | ["H"; h] -> WHeaders (bytes_of_hex h) | ["S"] -> WSendHeaders | ["W"; h] -> WWrite (bytes_of_hex h)
+      | ["E"; h] -> WEof (bytes_of_hex h) | ["X"] -> WSetEof | ["C"] -> WEnableChunking
+      | ["L"; "none"] -> WSetLength None | ["L"; n] -> WSetLength (Some (n_of_int (int_of_string n)))
+      | _ -> failwith "op" in
+    let (s, out) = wrun winit (List.map op_of ops) in
+    Printf.sprintf "%s %s%s%s %s" (hex_of_bytes out) (string_of_bool_01 s.w_chunked) (string_of_bool_01 s.w_hwritten)
+      (string_of_bool_01 s.w_eof) (match s.w_length with None -> "none" | Some n -> string_of_int (int_of_n n))
   | _ -> "BADREQ"
 let () = serve handle
